@@ -431,6 +431,30 @@ def exactRun (a b : J × List Inst) : Bool :=
   a.1.clean && a.1.approx b.1 && a.2.length == b.2.length &&
     (a.2.zip b.2).all fun p => renderKey p.1.key == renderKey p.2.key && p.1.args.clean && p.1.args.approx p.2.args
 
+def idxLt : Idx → Idx → Bool
+  | .i a, .i b => a < b
+  | .k a, .k b => a < b
+  | .i _, _ => true
+  | _, _ => false
+
+def insertIdx (x : Idx) : List Idx → List Idx
+  | [] => [x]
+  | y :: ys => if x == y then y :: ys else if idxLt x y then x :: y :: ys else y :: insertIdx x ys
+
+/-- the index sets the run recorded: the indices / keys of call `c` (the last element of the key's
+path) in the fork ids of the stage instances below it that fork over it, in the given fork of the
+calls around it -/
+def recordedIdx (keys : List InstKey) : IdxRec := fun k =>
+  match k.path.getLast? with
+  | none => []
+  | some c =>
+    let cand := keys.filter fun j =>
+      k.path.isPrefixOf j.path && k.forks.all fun e =>
+        match j.forks.lookup e.1 with
+        | some v => v == e.2
+        | none => true
+    (cand.filterMap fun j => j.forks.lookup c).foldr insertIdx []
+
 mutual
 partial def subNotOk : STree → Bool
   | .node _ => false
@@ -467,18 +491,32 @@ def staticReply (P : Program) (obs : Option Obs) : String :=
     (match obs with
      | some obs => obs.outs.all fun o => J.clean o.2
      | none => true)
-  let (denV, rtV) :=
+  let (denV, rtV, kindR) :=
     match obs with
-    | none => ("na", "na")
+    | none => ("na", "na", "")
     | some obs =>
       let O : Oracle := oracleOf obs.outs
-      let ρ := storeOfNodesR P.table P.nfuel fqid nodes info O (info.length + 1)
+      -- the recorded index sets (where no stage instance below a call forks over it: those of the
+      -- collection it was split over)
+      let ρc := storeOfNodesR P.table P.nfuel fqid nodes info O (info.length + 1)
+      let occ := subROccList [] s.2
+      let keys := obs.outs.map (·.1) ++ (obs.jobs.filter fun j => !j.chunk).map (·.inst)
+      let I : IdxRec := fun k =>
+        match recordedIdx keys k with
+        | [] => (match k.path.getLast? with | some c => ρc.idx c k.forks | none => [])
+        | r => r
+      let ρ := storeOfRun fqid nodes occ O I
+      let fragR0 := !treeOkList [] s.2 && callGraphAcyclicB P && wellTypedEB P && acyclicB P.table &&
+        treeOkPList [] s.2 &&
+        decide ((nodes.map fun n => fqid n.path).Nodup) && decide ((occ.map (·.1)).Nodup) &&
+        (obs.outs.all fun o => J.clean o.2)
+      let fragR := fragR0 && idxOkTList P.table P.nfuel ρ [] s.2
       let d := den P O
       let t := twoPhaseT P fqid ρ
       -- (the tree theorem says den = twoPhaseT exactly when fragT; compared for every program anyway)
       let same := sameRun d t &&
         (!frag || sameRun d (twoPhaseM P fqid (storeOfNodes fqid (staticProgram P fqid).2 O))) &&
-        (!fragE || exactRun (eraseRun d) t)
+        (!fragE || exactRun (eraseRun d) t) && (!fragR || exactRun (eraseRun d) t)
       let jobDiff := obs.jobs.findSome? fun j =>
         if j.chunk then none else
         match t.2.find? (fun i => covers j.inst i.key) with
@@ -487,8 +525,9 @@ def staticReply (P : Program) (obs : Option Obs) : String :=
       let topDiff := diffRecord "rt-top-outs" P.top.id
         ((fieldsOf t.1).filter fun kv => !obs.skip.contains kv.1)
         ((fieldsOf obs.top).filter fun kv => !obs.skip.contains kv.1)
-      (if same then "eq" else "neq", match jobDiff.orElse (fun _ => topDiff) with | some d => d | none => "ok")
-  "\t".intercalate ["static", s!"frag={if frag || fragT || fragE then 1 else 0}{if frag then "G" else ""}{if fragT then "T" else ""}{if fragE && !fragT then "E" else ""}", "den=" ++ denV, "rt=" ++ rtV,
+      (if same then "eq" else "neq", match jobDiff.orElse (fun _ => topDiff) with | some d => d | none => "ok",
+       if fragR then "R" else if fragR0 then "X" else "")
+  "\t".intercalate ["static", s!"frag={if frag || fragT || fragE || kindR == "R" then 1 else 0}{if frag then "G" else ""}{if fragT then "T" else ""}{if fragE && !fragT then "E" else ""}{kindR}", "den=" ++ denV, "rt=" ++ rtV,
     printStatic info table s.1.exp nodes]
 
 end static
